@@ -336,6 +336,7 @@ def run(ctx):
     sh = c05.check_plan(_Renumber(ctx, {1: 8, 2: 8, 5: 8, 6: 8, 7: 8}))
     c05.check_tick_body(_Renumber(ctx, {4: 8, 5: 8, 6: 8, 7: 8}), sh)
     c10.check_duration(_Renumber(ctx, {3: 8, 6: 8}), 3)
+    c05.check_scaling(_Renumber(ctx, {3: 8}), 3)          # the scaling laws are the documented closed forms (finite and positive for every CPU count >= 1)
     check_depletion_assert(ctx, 9)
     check_positivity(ctx, 10)
     check_admission_exact(ctx, 11)
